@@ -62,6 +62,12 @@ def main(chk, replay=None):
                          'observed': {k: obs.get(k) for k in ('k', 'exc', 'N', 'D')}} if n % 997 == 5 else None)
         chk.traces += 1
         n += 1
+        if dlt is None and st.get('cls') == 'analysis-loss':
+            # the real reader does what the specification reader does - and that outcome is the named deviation
+            # AnalysisLoss of Gen_C01.tla: intact events and TEXT, but the ANALYSIS keywords of the intact file are gone
+            chk.violation('C16/truncated-analysis-read-silently', {'layout': lay, 'fault': flt, 'bytes': st['file']},
+                          'refused, or the ANALYSIS keywords of the intact file',
+                          {'k': obs.get('k'), 'analysis_pairs_read': len(obs.get('analysis', [])), 'warnings': obs.get('warn')})
         if dlt is not None:
             chk.violation('C16/%s/%s' % (fk if flt['k'] == 'field' else flt['k'], dlt),
                           {'layout': lay, 'fault': flt, 'bytes': st['file']},
